@@ -59,18 +59,10 @@ Proof.
   destruct Hin as [e [He _]]. subst kr. cbn [snd]. apply map_length.
 Qed.
 
-Lemma dedup_rows_in : forall l seen r, In r (dedup_rows l seen) -> In r l.
-Proof.
-  induction l as [|x l IH]; intros seen r H; [destruct H|]. cbn [dedup_rows] in H.
-  destruct (mem_row x seen).
-  - right. exact (IH _ _ H).
-  - destruct H as [H|H]; [left; exact H | right; exact (IH _ _ H)].
-Qed.
-
 Lemma core_rows_len : forall d q,
   Forall (fun kr => length (snd kr) = length (col_kinds q)) (core_rows d (orm_to_core d q)).
 Proof.
-  intros d q. destruct q as [c|k|outer t sp sc m|outer sc sp|sc|a b|c|vals sc]; cbn [orm_to_core core_rows col_kinds].
+  intros d q. destruct q as [c|k|outer t sp sc m|outer sc sp|sc|a b|c|a b post|vals sc]; cbn [orm_to_core core_rows col_kinds].
   - exact (sel_rows_len d (sel_p (tr_pcrit d 0 c) [ECol 0 ColId])).
   - exact (sel_rows_len d {| s_tab := TabC; s_alias := 0; s_joins := []; s_where := tr_ccrit 0 k;
                              s_cols := [ECol 0 ColId]; s_order := [ECol 0 ColId] |}).
@@ -89,6 +81,13 @@ Proof.
         rewrite Forall_forall in H. exact (H kr Hin). }
     destruct r as [|x [|y r]]; try discriminate. reflexivity.
   - exact (sel_rows_len d (sel_n (tr_ncrit 0 c))).
+  - apply Forall_forall. intros kr Hin. apply in_map_iff in Hin. destruct Hin as [r [Hr Hin]]. subst kr.
+    cbn [snd]. apply filter_In in Hin. destruct Hin as [Hin _]. apply dedup_rows_in in Hin. apply in_app_or in Hin.
+    assert (Hl : length r = 4).
+    { destruct Hin as [Hin|Hin]; apply in_map_iff in Hin; destruct Hin as [kr [Hkr Hin]]; subst r.
+      - pose proof (sel_rows_len d (sel_call (tr_sx 0 ColY a))) as H. rewrite Forall_forall in H. exact (H kr Hin).
+      - pose proof (sel_rows_len d (sel_call (tr_sx 0 ColY b))) as H. rewrite Forall_forall in H. exact (H kr Hin). }
+    destruct r as [|x r]; [discriminate | reflexivity].
   - pose proof (sel_rows_len d (sel_sibs sc)) as H. destruct vals; exact H.
 Qed.
 
